@@ -31,8 +31,8 @@ STROPS='{"pub", "rem", "exp", "sexp", "clear", "refresh", "poscheck"}'
 cfg('quick_eph.cfg', Modes='{"eph"}', SSizes='{1}', Filts=ALLF, Ops=EPHOPS)
 for nm, ct, ds in (('coded', 'FALSE', 'FALSE'), ('fixed', 'TRUE', 'FALSE'), ('fixed2', 'TRUE', 'TRUE')):
     cd = ct == 'FALSE'
-    cfg('quick_stream_%s.cfg' % nm, Modes='{"rec", "per"}', Kinds=ALLK, MaxOps=2, Filts='{"none", "client"}', Ops=STROPS, Contig=ct, DropStale=ds, coded=cd)
-    cfg('quick_filt_%s.cfg' % nm, Modes='{"rec"}', Kinds=ALLK, MaxOps=2, Filts=FILT, Ops=STROPS, Contig=ct, DropStale=ds, coded=cd)
+    cfg('quick_stream_%s.cfg' % nm, Modes='{"rec"}', Kinds=ALLK, MaxOps=2, Filts='{"none", "client"}', Ops=STROPS, Contig=ct, DropStale=ds, coded=cd)
+    cfg('quick_filt_%s.cfg' % nm, Modes='{"rec"}', Kinds=ALLK, MaxOps=2, Pages='{1}', Filts=FILT, Ops=STROPS, Contig=ct, DropStale=ds, coded=cd)
     # ---- thorough (exhaustive)
     cfg('thorough_rec_%s.cfg' % nm, Modes='{"rec"}', Kinds=ALLK, MaxOps=3, Filts='{"none", "client"}', Ops=STROPS, N0s='{0, 2}', Contig=ct, DropStale=ds, coded=cd)
     cfg('thorough_per_%s.cfg' % nm, Modes='{"per"}', Kinds=ALLK, MaxOps=3, Filts='{"none"}', Ops=STROPS, N0s='{0, 2}', Contig=ct, DropStale=ds, coded=cd)
